@@ -161,8 +161,7 @@ Proof.
   destruct (is_response (a_code a)); [|eapply tail_ok; eauto].
   destruct (aget pk_eqb (piggy s) (rpeer r, a_token a)) as [[pmid h]|].
   - destruct (no_response_of a).
-    + destruct (rlocal r =? 0). { inv H. auto. }
-      eapply tail_ok; eauto.
+    + eapply tail_ok; eauto.
     + eapply tail_ok; eauto.
   - destruct (no_response_of a). { inv H. auto. }
     eapply tail_ok; eauto.
@@ -180,11 +179,8 @@ Proof. destruct mon; cbn; [apply fail_request_ok|]. intros H; inv H; auto. Qed.
 Lemma send_response_ok s r req c rnr pl s' o : send_response s r req c rnr pl = (s', o) -> BInv s -> BInv s' /\ Forall ok_out o.
 Proof.
   unfold send_response. intros H HB.
-  match type of H with context [send_message ?s ?r ?a ?m ?q] => destruct (send_message s r a m q) as [[s1 o1] [e|]] eqn:E1 end.
-  - apply send_message_ok in E1 as (HB1 & Ho1); auto.
-    match type of H with context [send_message ?s ?r ?a ?m ?q] => destruct (send_message s r a m q) as [[s2 o2] e2] eqn:E2 end.
-    apply send_message_ok in E2 as (HB2 & Ho2); auto. inv H. split; auto. apply Forall_ok_app; auto.
-  - inv H. eapply send_message_ok; eauto.
+  match type of H with context [send_message ?s ?r ?a ?m ?q] => destruct (send_message s r a m q) as [[s1 o1] e] eqn:E1 end.
+  inv H. eapply send_message_ok; eauto.
 Qed.
 
 Tactic Notation "dlet" hyp(H) ident(s) ident(o) ident(E) := match type of H with (match ?X with pair _ _ => _ end) = _ => destruct X as [s o] eqn:E end.
@@ -225,8 +221,7 @@ Lemma Forall_ok_cancel_all l p : Forall ok_out (cancel_all l p).
 Proof. induction l as [|[[? ?] ?] l IH]; cbn; [constructor|]. destruct (_ =? _); auto. constructor; cbn; auto. Qed.
 Lemma tm_dispatch_error_ok s p e s' o : tm_dispatch_error s p e = (s', o) -> BInv s -> BInv s' /\ Forall ok_out o.
 Proof.
-  unfold tm_dispatch_error. intros H HB. destruct (existsb _ (outgoing s)). { inv H. split; [exact HB|repeat constructor]. }
-  inv H. split; [apply (BInv_ext s); auto|].
+  unfold tm_dispatch_error. intros H HB. inv H. split; [apply (BInv_ext s); auto|].
   apply Forall_ok_app; [apply Forall_ok_fail_all|apply Forall_ok_cancel_all].
 Qed.
 
@@ -599,23 +594,27 @@ Proof.
   unfold _send_initially, _store_response_for_duplicates. cbn. destruct (amem _ _ _); cbn; auto.
 Qed.
 
-(* suppressed by No-Response while the request is unacknowledged: an empty ACK instead (request received on a unicast address) *)
+(* suppressed by No-Response while the request is unacknowledged: an empty ACK instead, also for a request received on a multicast address *)
 Lemma send_message_suppressed_ack s r a mon rq pmid h :
-  is_response (a_code a) = true -> aget pk_eqb (piggy s) (rpeer r, a_token a) = Some (pmid, h) -> no_response_of a = true -> rlocal r <> 0 ->
+  is_response (a_code a) = true -> aget pk_eqb (piggy s) (rpeer r, a_token a) = Some (pmid, h) -> no_response_of a = true ->
   exists s', send_message s r a mon rq = (s', [Send (as_response_address r) (empty_msg ACK pmid)], None) /\
              piggy s' = adel pk_eqb (piggy s) (rpeer r, a_token a) /\ atimers s' = cancel (atimers s) h.
 Proof.
-  intros Hr Hg Hn Hl. unfold send_message. rewrite Hr, Hg, Hn. replace (rlocal r =? 0) with false by lia. rewrite tail_ack.
+  intros Hr Hg Hn. unfold send_message. rewrite Hr, Hg, Hn. rewrite tail_ack.
   eexists. split; [reflexivity|]. unfold _send_initially, _store_response_for_duplicates. cbn. destruct (amem _ _ _); cbn; auto.
 Qed.
+Lemma as_response_address_idempotent r : as_response_address (as_response_address r) = as_response_address r.
+Proof. unfold as_response_address, is_multicast_locally. destruct (rlocal r =? 2) eqn:E; cbn; [reflexivity|rewrite E; reflexivity]. Qed.
+Lemma as_response_address_not_multicast_locally r : is_multicast_locally (as_response_address r) = false.
+Proof. unfold as_response_address, is_multicast_locally. destruct (rlocal r =? 2) eqn:E; cbn; [reflexivity|exact E]. Qed.
 
-(* ... but on the stripped address of a request that was received on a multicast address the same call raises (finding) *)
-Lemma send_message_suppressed_raises s r a mon rq pmid h :
-  is_response (a_code a) = true -> aget pk_eqb (piggy s) (rpeer r, a_token a) = Some (pmid, h) -> no_response_of a = true -> rlocal r = 0 ->
-  exists s', send_message s r a mon rq = (s', [], Some TypeError) /\ piggy s' = adel pk_eqb (piggy s) (rpeer r, a_token a).
-Proof.
-  intros Hr Hg Hn Hl. unfold send_message. rewrite Hr, Hg, Hn, Hl. cbn. eexists. split; reflexivity.
-Qed.
+(* every response of the rendering path — also 4.04 / 4.05 / 5.00 built from exceptions, which carry no option of their own — is sent
+   with the request's No-Response option in force *)
+Lemma error_response_inherits_no_response s r req c pl :
+  send_response s r req c None pl =
+  (let '(s1, o, _) := send_message s (as_response_address r)
+      {| a_mtype := None; a_code := c; a_token := token req; a_nr := nr req; a_obs := None; a_payload := pl |} MonResp (Some (mtype req)) in (s1, o)).
+Proof. reflexivity. Qed.
 
 (* suppressed by No-Response and no acknowledgement pending: nothing is sent and nothing changes *)
 Lemma send_message_suppressed_silent s r a mon rq :
